@@ -212,7 +212,7 @@ Definition K_simple := 19. Definition K_complex := 20. Definition K_implicit := 
 Definition K_short := 22. Definition K_overlap := 23. Definition K_large := 24. Definition K_wbits := 25.
 Definition K_switches := 26. Definition K_imtf := 27. Definition K_rle := 28. Definition K_literals := 29.
 Definition K_maxdist := 30. Definition K_window_reached := 31. Definition K_single_sym := 32.
-Definition K_last_metadata := 33.
+Definition K_last_metadata := 33. Definition K_ring_pushes := 34.
 
 Definition read_code (amax limit : N) (i : info) : R (htree * info) :=
   fun bs => match read_prefix_code2 amax limit bs with
@@ -573,6 +573,7 @@ Section Decoder.
                   | Continue o' =>
                     let i3 := setmax (if dist <? clen then bump i2 K_overlap else i2) K_maxdist dist in
                     let i4 := if dist =? m_window m then bump i3 K_window_reached else i3 in
+                    let i4 := if push then bump i4 K_ring_pushes else i4 in
                     let c3 := {| c_bl := c_bl c2; c_bi := c_bi c2; c_bd := bd; c_out := o';
                                  c_ring := if push then ring_push (c_ring c2) dist else c_ring c2;
                                  c_left := c_left c2 - clen; c_info := i4; c_bits := bs4 |} in
@@ -712,6 +713,28 @@ Section Decoder.
         | Ok (_, []) => Ok (rev' (o_rev (d_out s)), d_info s)
         | Ok (_, _ :: _) => Err 16
         end
+      end
+    end.
+
+  (* the decoder's state after a PREFIX of a stream that ends at a meta-block boundary (what an encoder has
+     emitted when a flush has completed): the ring of last distances, the number of output bytes and the last
+     two bytes -- the state the encoder must have tracked *)
+  Definition prefix_step (large : bool) (window budget : N) (s : dstate) : step_res dstate mb_end :=
+    match d_bits s with
+    | [] => Stop (StreamDone s)
+    | _ => meta_block large window budget s
+    end.
+  Definition decode_prefix (allow_large : bool) (prefix stream : list N) : res (ring * (N * N * N) * info) :=
+    let bs := flat_map (fun b => N_to_bits 8 b) stream in
+    let budget := 8 * N.of_nat (length stream) + 8 in
+    match read_wbits allow_large bs with
+    | Err e => Err e
+    | Ok ((wbits, large), r) =>
+      let s0 := {| d_out := o_init prefix; d_ring := ring_init; d_info := PE; d_bits := r |} in
+      match loop_n budget (prefix_step large (2 ^ wbits - 16) budget) s0 with
+      | Continue _ => Err 19
+      | Stop (MbErr e) => Err e
+      | Stop (StreamDone s) => Ok (d_ring s, (o_pos (d_out s), o_p1 (d_out s), o_p2 (d_out s)), d_info s)
       end
     end.
 
